@@ -132,7 +132,21 @@ PingFails(e) ==
   ELSE IF PingFixed(r) # Unknown THEN Tag(e.f = [q |-> PingFixed(r), r |-> 0], "C12.pingslot")
   ELSE Tag(e.f = [q |-> PingHopQ(r, ((e.devaddr[4] % 8) + (e.t128 % 8)) % 8), r |-> 0], "C12.pingslot")
 
+\* ---- extended coverage (prefix "X.", never part of a property verdict) -------------------------------------------------
+\* default max EIRP of RP002 (1/100 dBm), TxParamSetupReq support (AS923 always; AU915 from RP 1.0.2 rev B on; nowhere else),
+\* downlink TX power: never above the band's regulatory ceiling and EU868's 869.4-869.65 MHz sub-band at 27 dBm
+MaxEIRPc(r) == CASE r = "EU868" -> 1600 [] r = "US915" -> 3000 [] r = "AU915" -> 3000 [] r = "KR920" -> 1400 [] r = "IN865" -> 3000
+                 [] r = "RU864" -> 1600 [] r = "CN470" -> 1915 [] r = "CN779" -> 1215 [] r = "EU433" -> 1215 [] r = "ISM2400" -> 1000
+                 [] OTHER -> 1600   \* AS923 and its sub-plans
+TxParamExpected(r, v) == IF IsAS923(r) THEN TRUE ELSE IF r = "AU915" THEN v \notin {"1.0.1", "1.0.2"} ELSE FALSE
+MiscFails(e) ==
+  Tag(e.eirpc = MaxEIRPc(e.bname), "X.band-eirp")
+  \o Tag(e.bname = "ISM2400" \/ \A v \in DOMAIN e.txparam : e.txparam[v] = TxParamExpected(e.bname, v), "X.band-txparam")   \* ISM2400: not vouched for (Unknown)
+  \o Tag(\A k \in 1..Len(e.dltx) : e.dltx[k].p >= 0 /\ e.dltx[k].p <= 30
+                                     /\ (e.bname = "EU868" /\ e.dltx[k].f = [q |-> 8695250, r |-> 0] => e.dltx[k].p = 27), "X.band-dltx")
+
 Fails(e) == CASE e.ev = "bandcfg" -> CfgFails(e)
+              [] e.ev = "bandmisc" -> MiscFails(e)
               [] e.ev = "pingslot" -> PingFails(e)
               [] OTHER -> <<"unknown-event">>
 
